@@ -28,6 +28,7 @@ func main() {
 	tier := fs.String("tier", "quick", "quick|thorough")
 	replay := fs.String("replay", "", "replay file")
 	work := fs.String("work", "", "scratch dir")
+	what := fs.String("what", "", "scenario selector within the family")
 	fs.Parse(os.Args[2:])
 	d, ok := drivers.Registry[fam]
 	if !ok {
@@ -39,7 +40,7 @@ func main() {
 		fmt.Fprintln(os.Stderr, err)
 		os.Exit(2)
 	}
-	c := &drivers.Ctx{Out: w, Stats: vt.NewStats(""), Seed: *seed, Tier: *tier, Replay: *replay, Work: *work,
+	c := &drivers.Ctx{Out: w, Stats: vt.NewStats(""), Seed: *seed, Tier: *tier, Replay: *replay, Work: *work, What: *what,
 		Rand: rand.New(rand.NewSource(*seed))}
 	if err := d(c); err != nil {
 		fmt.Fprintln(os.Stderr, "driver error:", err)
